@@ -123,6 +123,11 @@ def leafs(v, rng):
     yield "url_self", full("url ", 0, 1)
     yield "url_loc", full("url ", 0, 0, [Raw(b"http://x/" + bytes([97 + v.u(1, 26)]) + b"\0")])
     yield "url_utf8", full("url ", 0, 0, [Raw("http://x/\u00e9t\u00e9\0".encode())])
+    # the self-contained flag (bit 0) set together with a location string, other flag bits, an empty location without the flag
+    for fl in (1, 3, 0x101, 0xFFFFFF, 2, 0xFFFFFE):
+        yield "url_fl%x_loc" % fl, full("url ", 0, fl, [Raw(b"file:///" + bytes([97 + v.u(1, 26)]) + b"\0")])
+        yield "url_fl%x_empty" % fl, full("url ", 0, fl)
+    yield "url_fl0_nul", full("url ", 0, 0, [Raw(b"\0")])
     for n in (4, 33):
         yield "url_counted_%d" % n, full("url ", 0, 0, [Raw(bytes([n]) + b"u" * (n - 1) + b"\0")])
         yield "emsg_counted_%d" % n, isogen.emsg(n % 2, v.u(4), v.u(4), v.u(4), v.u(4), bytes([n]) + b"s" * (n - 1), bytes([n - 1]) + b"v" * (n - 1), v.bytes(2))
@@ -146,7 +151,9 @@ def entries(v, rng):
             items += [F(1, typ), F(2, len(nalus))] + [x for nn in nalus for x in (F(2, len(nn)), Raw(nn))]
         yield "hev1_%d" % len(arrays), isogen.visual_entry("hev1", w, h, [Box("hvcC", items)])
     yield "vp09", isogen.visual_entry("vp09", w, h, [full("vpcC", 1, 0, [F(1, v.u(1)), F(1, v.u(1)), F(1, v.u(1)), F(1, v.u(1)), F(1, v.u(1)), F(1, v.u(1)), F(2, 0)])])
-    for aot, fi, ch, pad in ((2, 3, 2, 0), (1, 0, 1, 0), (5, 12, 7, 0), (29, 4, 6, 0), (2, 3, 2, 3), (36, 3, 2, 0), (32, 11, 1, 1)):
+    # the full 4-bit range of the channel configuration (values 8..15 have no ChannelConfig variant but are wire values) and of the frequency index
+    wide = [(2, 3, ch, 0) for ch in (0, 3, 4, 5, 8, 9, 10, 11, 12, 13, 14, 15)] + [(2, fi, 2, 0) for fi in (1, 2, 5, 6, 7, 8, 9, 10, 13, 14)] + [(a, 4, 2, 0) for a in (3, 4, 6, 17, 23, 30)]
+    for aot, fi, ch, pad in [(2, 3, 2, 0), (1, 0, 1, 0), (5, 12, 7, 0), (29, 4, 6, 0), (2, 3, 2, 3), (36, 3, 2, 0), (32, 11, 1, 1)] + wide:
         yield "mp4a_%d_%d_%d_p%d" % (aot, fi, ch, pad), isogen.mp4a(aot, fi, ch, v.u(4), v.u(2), pad)
     yield "mp4a_noesds", Box("mp4a", [Raw(b"\0" * 6), F(2, 1), F(8, 0), F(2, 2), F(2, 16), F(4, 0), F(4, 48000 << 16)])
     yield "mp4a_wave", isogen.mp4a(2, 4, 2, 1000, 44100, 0, extra=[Box("free", [Raw(b"ab")])])
